@@ -8,6 +8,7 @@ package harness
 // blocks that follow.
 
 import (
+	ctypes "github.com/elys-network/elys/x/commitment/types"
 	"fmt"
 	"reflect"
 	"sort"
@@ -228,6 +229,25 @@ func (h *Hist) govAmmShock() string {
 		return what
 	}
 	return ""
+}
+
+// govVestShock: governance enables vest-now and sets what Eden vests into: ELYS (as everywhere in the repository's tests), or an asset
+// the chain does not issue (the validation of MsgUpdateVestingInfo accepts any denom). Whatever it is, turning Eden into it must not
+// create units of an externally issued asset.
+func (h *Hist) govVestShock() string {
+	on := true
+	var cur bool
+	h.w.Seed(func(ctx sdk.Context) { cur = h.w.App.CommitmentKeeper.GetParams(ctx).EnableVestNow })
+	if cur != on {
+		if !h.govApplyRecorded(&ctypes.MsgUpdateEnableVestNow{Authority: h.w.Gov, EnableVestNow: on}) {
+			return ""
+		}
+	}
+	d := []string{"uelys", "uatom", h.std.USDC}[h.r.Intn(3)]
+	if h.govApplyRecorded(&ctypes.MsgUpdateVestingInfo{Authority: h.w.Gov, BaseDenom: "ueden", VestingDenom: d, NumBlocks: 40, VestNowFactor: int64([]int{1, 3, 90}[h.r.Intn(3)]), NumMaxVestings: 8}) {
+		return "commitment.EdenVestsInto=" + d
+	}
+	return "commitment.EnableVestNow"
 }
 
 func (h *Hist) govVaultShock() string {
